@@ -124,6 +124,7 @@ Proof.
     cbn [Datatypes.length Nat.add app check_control_nest_loop1]. cbv zeta.
     replace (d >? 0) with true by (symmetry; apply Z.gtb_lt; lia).
     rewrite !(check1_some _ _ _ _ (peek_mid pre t (l1 ++ rest))), !(checkl_some _ _ _ _ (peek_mid pre t (l1 ++ rest))), (peek_mid pre t (l1 ++ rest)).
+    cbn [is_none negb andb].
     fold ty_rpar ty_lpar ty_nl. rewrite A, B. cbn [is_true].
     assert (Step : forall d2 E2, 1 <= d2 -> exists d' X, 1 <= d' /\
        (if (if str_eqb (t_type t) ty_nl then true else false) && (d2 <? 1) then Ok (Some false, (zlen pre, d2, E2, v))
@@ -165,6 +166,7 @@ Proof.
     replace ((l0 ++ [lp]) ++ l1 ++ ta :: rest) with (((l0 ++ [lp]) ++ l1) ++ ta :: rest) by (rewrite <- app_assoc; reflexivity).
     replace (zlen (l0 ++ [lp]) + zlen l1) with (zlen ((l0 ++ [lp]) ++ l1)) by zl.
     rewrite !(check1_some _ _ _ _ (peek_mid _ ta rest)), !(checkl_some _ _ _ _ (peek_mid _ ta rest)), (peek_mid _ ta rest).
+    cbn [is_none negb andb].
     fold ty_lpar ty_rpar. rewrite A1, A2, Ha. cbn [is_true emit bind]. eexists. split; [reflexivity|]. apply in_or_app. right. now left. }
   assert (T : forall E0, exists E, bind (check_control_statement_loop1 (loop_fuel toks) toks scope 0 E0 v)
        (fun rs => let '(ret, st) := rs in let '(x_i, E, v) := st in match ret with Some _ => Ok (E, v) | None => Ok (E, v) end) = Ok (E, v)
